@@ -37,6 +37,9 @@ type Failure struct {
 	Replayed bool              `json:"replayed"`
 	Known    string            `json:"known,omitempty"`
 	Class    string            `json:"class,omitempty"`
+	NativeRan        bool   `json:"native_ran,omitempty"`
+	NativeReproduced bool   `json:"native_reproduced,omitempty"`
+	NativeNote       string `json:"native_note,omitempty"`
 }
 
 func (f *Failure) key() string {
